@@ -9,6 +9,12 @@ from mc import env
 from mc.framework import Result
 from mc.model import iso_dir_legal, iso_file_legal
 
+def _stable(t):
+    """A digest that does not depend on the per-process hash seed (evidence counts must be reproducible)."""
+    import zlib
+    return zlib.crc32(repr(t).encode('utf-8', 'surrogatepass'))
+
+
 PROP = 'C18'
 LEVEL = 'exploration'
 ASSUMPTIONS = [
@@ -93,7 +99,7 @@ def check_pure(s, res):
                 out.append({'clause': 'an already legal name is returned unchanged (apart from the version)',
                             'cls': '%s L%d %s' % (kind, level, 'trailing dot (empty extension)' if s.endswith('.') and s.count('.') == 1 else 'other'),
                             'msg': '%r level %d %s -> %r' % (s, level, kind, ident)})
-            res.add('results', hash((ident, level, is_dir)) & 0xfffff)
+            res.add('results', _stable((ident, level, is_dir)) & 0xfffff)
     return out
 
 
